@@ -78,6 +78,9 @@ def args_of(calls, tok):
 
 def row_option(ctx, i, tag=''):
     t = ctx.real('%sopt_thr%d' % (tag, i))
+    if i % 2 == 1:
+        # every other row leaves the centring (and method) to the library defaults
+        return {'threshold_kwargs': {'amp_fraction_threshold': t, 'min_n_cycles': 2}, 'return_samples': False}, t
     return {'center_extrema': 'trough', 'burst_method': 'cycles',
             'threshold_kwargs': {'amp_fraction_threshold': t, 'min_n_cycles': 2},
             'return_samples': (i % 2 == 0)}, t
@@ -100,8 +103,8 @@ def check_token(ctx, calls, tok, row, opt, rs, obl, where, dtype_of=None, dtype_
     else:
         o, t = opt
         tk = a.get('threshold_kwargs') or {}
-        obl.append((a.get('center_extrema') == o['center_extrema'] and a.get('burst_method') == o['burst_method'],
-                    '%s analysed with the options given for that position' % where))
+        obl.append((a.get('center_extrema', 'peak') == o.get('center_extrema', 'peak') and a.get('burst_method', 'cycles') == o.get('burst_method', 'cycles'),
+                    '%s analysed with the options given for that position (library defaults where a row gives none)' % where))
         obl.append((ctx.eq(tk.get('amp_fraction_threshold', float('nan')), t) if 'amp_fraction_threshold' in tk else False,
                     '%s analysed with the thresholds given for that position' % where))
 
